@@ -412,6 +412,23 @@ func (e *Engine) runPass(vc *VC) {
 			}
 		}
 	}
+	// free variables of a function literal verified on its own: each is the address of a cell that exists at entry
+	// and holds an arbitrary value of its type; clauses mention the variable by its source name
+	var fvPtrs []SV
+	for i, fv := range fn.FreeVars {
+		c := fmt.Sprintf("fv%d_%s", i, sanitize(fv.Name()))
+		vc.decl(c, "Int")
+		vc.assume(and(lt("0", c), lt(c, "alloc@0")))
+		for _, o := range fvPtrs {
+			vc.assume(not(eq(o.t, c)))
+		}
+		psv := SV{t: c, typ: fv.Type()}
+		fvPtrs = append(fvPtrs, psv)
+		vc.nonnil[c] = true
+		if _, isPtr := fv.Type().Underlying().(*types.Pointer); isPtr {
+			vc.params[fv.Name()] = SV{t: vc.loadLoc(entry, vc.locOf(psv)), typ: derefType(fv.Type())}
+		}
+	}
 	env := vc.topEnv(entry)
 	if len(con.Defines) > 0 {
 		// defined functions of the pre-state: their axioms hold, and that they are well defined (equal keys
@@ -483,6 +500,9 @@ func (e *Engine) runPass(vc *VC) {
 	}
 	fr := vc.newFrame(fn, 0, true)
 	vc.stack = []*ssa.Function{fn}
+	for i, fv := range fn.FreeVars {
+		fr.env[fv] = fvPtrs[i]
+	}
 	fr.execBody(args, entry.clone(), tTrue)
 	if vc.dry {
 		return
